@@ -995,7 +995,7 @@ def run(ctx):
                 'range are regenerated. Half the cases are built with constructors, half rendered to XML and loaded. A case is '
                 'non-trivial when it has a reference to a shared node or a path of >= 2 matrices and yields >= 2 objects; distinct = '
                 'distinct case description')
-    ncases = ctx.n(1200, 24000)
+    ncases = ctx.n(1200, 8000)
     cases = [gen_valid_case(ctx.rng, 'ctor' if i % 2 else 'xml') for i in range(ncases)]
     built = []
     lines = []
@@ -1062,7 +1062,7 @@ def run(ctx):
                                   dict(kind='correspondence', case=c, model=want, impl=got), found_input=False)
         if doc is not None:
             pos += 4
-        if doc is not None and not bad and nre < ctx.n(300, 6000):
+        if doc is not None and not bad and nre < ctx.n(300, 2000):
             eseed = ctx.rng.randrange(10 ** 9)
             try:
                 ab = abandon_then_traverse(c, doc, uidx, eseed)
